@@ -118,6 +118,23 @@ def prop_noise(case):
         with expect_ok("noise.simulate"):
             e, _ = kinetic.simulate_data(c, model, truth)
             clean, _ = kinetic.simulate_data(case, model, truth)
+    # the same seed held in a numpy integer type (an element of np.arange, a value read from a table) is the same seed
+    from glotaran.simulation import simulate
+
+    lab0 = next(iter(c["datasets"]))
+    d0 = c["datasets"][lab0]
+    coords0 = kinetic.coordinates(c, d0)
+    seed0 = int(d0["noise_seed"])
+    sims = []
+    with expect_ok("noise.simulate_numpy_seed"):
+        for sd in (seed0, np.int64(seed0), np.arange(seed0, seed0 + 1)[0], np.uint32(seed0)):
+            if case["sim"] == "full":
+                sims.append(simulate(model, lab0, truth, coords0, noise=True, noise_std_dev=0.05, noise_seed=sd))
+            else:
+                labels0 = kinetic.clp_labels_of(model, truth, lab0, coords0)
+                sims.append(simulate(model, lab0, truth, coords0, clp=kinetic.make_clp(labels0, d0["spectral"], d0["clp_seed"]), noise=True, noise_std_dev=0.05, noise_seed=sd))
+    for k_, sim_ in enumerate(sims[1:], start=1):
+        check(np.array_equal(sims[0].data.values, sim_.data.values), "noise.numpy_integer_seed_differs_from_python_int", lambda: f"{lab0}: seed representation #{k_}")
     for lab in a:
         check(np.array_equal(a[lab].data.values, b[lab].data.values), "noise.same_seed_bit_identical", lambda: lab)
         check(not np.array_equal(a[lab].data.values, e[lab].data.values), "noise.different_seed_differs", lambda: lab)
